@@ -734,9 +734,12 @@ class Stmt:
             e = self.extra
             src = e["source"].render(r)
             sk = e["source"].key()
-            s = f"merge into {tn} using {src} on {tn}.{r.ident('k_1')} = {r.ident(sk)}.{r.ident('k_1')}"
-            if e.get("update"):
-                s += " when matched then update set " + ", ".join(f"{r.ident(a)} = {r.ident(sk)}.{r.ident(b)}" for a, b in e["update"])
+            tal = getattr(t, "alias", None)
+            tq = r.ident(tal) if tal else tn
+            s = f"merge into {tn}" + ((" as " if getattr(t, "use_as", False) else " ") + r.ident(tal) if tal else "") + f" using {src} on {tq}.{r.ident('k_1')} = {r.ident(sk)}.{r.ident('k_1')}"
+            if e.get("update") or e.get("self"):
+                # 'self' assignments read the matched target row itself: a = <target alias>.b
+                s += " when matched then update set " + ", ".join([f"{r.ident(a)} = {r.ident(sk)}.{r.ident(b)}" for a, b in e.get("update") or []] + [f"{r.ident(a)} = {x.render(r)}" for a, x in e.get("self") or []])
             if e.get("insert"):
                 s += " when not matched then insert (" + ", ".join(r.ident(a) for a, _ in e["insert"]) + ") values (" + ", ".join(f"{r.ident(sk)}.{r.ident(b)}" for _, b in e["insert"]) + ")"
             return s
@@ -860,6 +863,8 @@ class Stmt:
             return tgt, pairs
         if k == "merge":
             s = self.extra["source"]
+            if self.extra.get("self"):
+                notes.add("merge_reads_its_target_row")  # the tool attributes such an assignment to the source (KF-44): outside the model
             for a, b in (self.extra.get("update") or []) + (self.extra.get("insert") or []):
                 for o in _rel_col(s, b, {}, ds, notes):
                     pairs.add((o, a))
@@ -1554,6 +1559,8 @@ def all_rels(stmt):
             out += [(None, rel) for rel in g.rels()]
     if stmt.kind == "merge":
         out.append((None, stmt.extra["source"]))
+        if getattr(stmt.target, "alias", None):
+            out.append((None, stmt.target))
     return out
 
 
@@ -1586,6 +1593,9 @@ def all_exprs(stmt):
         for _, ex in stmt.extra["set"]:
             we(ex)
         wp(stmt.extra.get("where"))
+    if stmt.kind == "merge":
+        for _, ex in stmt.extra.get("self") or []:
+            we(ex)
     return out
 
 
